@@ -27,5 +27,7 @@ HARNESSES += _load("blk_common").ima_harnesses(("SEL_SEEKREAD",))
 HARNESSES += _load("blk_common").ms_harnesses(("SEL_SEEKREAD",))
 # ALAC staging layer (K-block contract for the bit-stream library)
 HARNESSES += _load("blk_common").alac_stage_harnesses(("SEL_SEEK", "SEL_READ"))
+# XI DPCM delta kernels: the predictor state carried between calls
+HARNESSES += [h for h in _load("blk_common").xi_split_harnesses() if h.defines["ENC"] == 0]
 
 META = {"assumptions": ["I_open handle invariant", "K-seek: codec seek returns the target or -1"], "outside": []}
